@@ -424,6 +424,11 @@ class Interp:
             elif isinstance(node.op, ast.Not):
                 t = self.truth(v, p)
                 out.append(("value", p, ("unop", "not", v) if t is None else ("const", not t)))
+            elif v[0] == "const" and isinstance(v[1], (int, float)) and not isinstance(v[1], bool):
+                val = {"neg": -v[1], "pos": +v[1]}.get(OPNAME[type(node.op)])
+                if val is None and isinstance(v[1], int):
+                    val = ~v[1]
+                out.append(("value", p, ("const", val)))
             else:
                 out.append(("value", p, ("unop", OPNAME[type(node.op)], v)))
         return out
